@@ -780,7 +780,15 @@ mod os {
             }
             drop(exec_fail_pipe.1);
             let mut error_buf = [0u8; 4];
-            let read_cnt = exec_fail_pipe.0.read(&mut error_buf)?;
+            let read_cnt = loop {
+                // A signal handler of the caller may interrupt the read.
+                // The child has been started: giving up here would report an
+                // error for a launch whose outcome is not known yet.
+                match exec_fail_pipe.0.read(&mut error_buf) {
+                    Err(ref e) if e.kind() == io::ErrorKind::Interrupted => continue,
+                    other => break other?,
+                }
+            };
             if read_cnt == 0 {
                 Ok(())
             } else if read_cnt == 4 {
